@@ -74,11 +74,97 @@ class Analysis:
     def events(self, kind=None):
         return [r for r in self.records if r.kind == 'event' and (kind is None or r.data[0] == kind)]
 
-    def arg(self, name):
-        for i in range(1, self.body.arg_count + 1):
-            if self.body.local_names.get(i) == name:
-                return self.args[i - 1]
-        raise KeyError(name)
+    def arg(self, role):
+        return self.args[param_index(self.body, role) - 1]
+
+    def param_name(self, role):
+        i = param_index(self.body, role)
+        return self.body.local_names.get(i, f"arg{i}")
+
+
+# Positions of the parameters of the public entry points / trait methods the rule packs analyse.  Positions are part of the
+# API (every caller passes positionally, so a reordering does not compile against the existing tests); parameter *names* are
+# not, and a renamed parameter must not disturb a rule.
+_W = {'self': 1, 'pdu': 2, 'frag_id': 3, 'metadata': 4, 'buffer': 5, 'extensions': 6}
+PARAMS = {
+    ENC + 'encap': _W, ENC + 'encap_ext': _W,
+    ENC + 'encap_frag': {'self': 1, 'pdu': 2, 'context': 3, 'buffer': 4},
+    'gse_encap::encap_preview': {'pdu': 1, 'metadata': 2, 'buffer': 3},
+    'gse_encap::encap_frag_preview': {'pdu': 1, 'context': 2, 'buffer': 3},
+    ENC + 'check_label_re_use': {'self': 1, 'label': 2},
+    DEC + 'decap': {'self': 1, 'buffer': 2}, DEC + 'get_label_or_frag_id': {'self': 1, 'buffer': 2},
+    MEM + 'take_frag': {'self': 1, 'frag_id': 2}, MEM + 'save_frag': {'self': 1, 'context': 2}, MEM + 'new_frag': {'self': 1, 'context': 2},
+    MEM + 'provision_storage': {'self': 1, 'storage': 2}, MEM + 'new_pdu': {'self': 1},
+    '<crc::DefaultCrc as crc::CrcCalculator>::calculate_crc32': {'self': 1, 'pdu': 2, 'protocol_type': 3, 'total_length': 4, 'label': 5},
+    'header_extension::Extension::new': {'id': 1, 'data': 2},
+    'label::Label::new': {'label_type': 1, 'label': 2},
+}
+
+
+def param_index(body, role):
+    """1-based index of the parameter playing `role` in `body`: by the API position table, else by name, else by type"""
+    t = PARAMS.get(body.key)
+    if t and role in t and t[role] <= body.arg_count:
+        return t[role]
+    if body.key.endswith('>::generate') and role in ('self', 'buffer'):
+        return {'self': 1, 'buffer': 2}[role]
+    if body.key.endswith('>::parse') and role == 'buffer':
+        return 1
+    for i in range(1, body.arg_count + 1):
+        if body.local_names.get(i) == role:
+            return i
+    if role == 'self' and body.arg_count >= 1 and body.local_ty(1)['k'] == 'ref' and body.local_ty(1)['to']['k'] == 'adt':
+        return 1
+    cands = [i for i in range(1, body.arg_count + 1) if _role_type(role, body.local_ty(i))]
+    if len(cands) == 1:
+        return cands[0]
+    raise Tooling(f"anchor lost: parameter `{role}` of {body.key}")
+
+
+def _role_type(role, ty):
+    def u8slice(t, mut=None):
+        return t['k'] == 'ref' and t['to']['k'] == 'slice' and t['to']['of'].get('s') == 'u8' and (mut is None or bool(t.get('mut')) == mut)
+    if role == 'buffer':
+        return u8slice(ty, True)
+    if role in ('pdu', 'data'):
+        return u8slice(ty, False)
+    if role == 'metadata':
+        return ty['k'] == 'adt' and ty['name'].endswith('EncapMetadata')
+    if role == 'context':
+        return (ty['k'] == 'ref' and ty['to']['k'] == 'adt' and ty['to']['name'].endswith('ContextFrag')) or 'DecapContext' in ty.get('s', '')
+    if role == 'frag_id':
+        return ty.get('s') == 'u8'
+    if role == 'crc':
+        return ty.get('s') == 'u32'
+    if role == 'extensions':
+        return 'Extension' in ty.get('s', '')
+    return False
+
+
+def zero_array_established(w, n=6):
+    """does world w say that all n bytes of some byte array are zero?  (either the legacy opaque equality fact with a constant,
+    or the constraints: every element atom of one array content is 0 / their sum is 0).  Used to recognise the reject path
+    `label == [0; 6]`, which the premise "the sender never emits the zero label" excludes."""
+    if any(isinstance(k, tuple) and k and k[0] == 'eq' and vv is True for k, vv in w.facts.items()):
+        return True
+    groups = {}
+    for c in w.store.cons:
+        for a_, _ in c.terms:
+            d_ = ATOMS.info(a_).defn
+            if d_ and d_[0] == 'arr_elem':
+                groups.setdefault(d_[1], set()).add(a_)
+    for content in groups:
+        total = Lin.c(0)
+        ok = True
+        for i in range(n):
+            x = ATOMS.by_key.get(('arr_elem', content, Lin.c(i)))
+            if x is None:
+                ok = False
+                break
+            total = total + Lin.atom(x)
+        if ok and w.store.entails(le(total, Lin.c(0))):
+            return True
+    return False
 
 
 def short(fnkey):
@@ -101,6 +187,7 @@ class Check:
         self.obligations = 0
         self.discharged = 0
         self.declined = []
+        self.declined_instances = 0
         self.analyses = {}
         self.facts = None
         self.unmodelled = {}
@@ -170,6 +257,7 @@ class Check:
                     self.sample({'obligation': d['desc'], 'okind': d['okind'], 'site': site_str(r.site), 'fn': short(r.site[0]), 'status': 'discharged'})
                 continue
             if d.get('declined'):
+                self.declined_instances += 1
                 k = (r.site[0], d['okind'], d['desc'])
                 if k not in seen:
                     seen.add(k)
@@ -226,6 +314,7 @@ class Check:
             'unmodelled_ops': self.unmodelled,
             'declined_sites': self.declined[:40],
             'n_declined': len(self.declined),
+            'declined_instances': self.declined_instances,   # obligations - discharged = declined instances (+ findings)
             'samples': self.samples or [{'note': 'no sample'}],
             'trusted_base': trusted or [],
             'checker_cmd': checker_cmd or f"./check {self.pid} --tier {self.tier}",
@@ -403,7 +492,7 @@ def encap_cfg(facts, out_buffer_root=None, extra=None):
     def after_crc(I, w, frame, site, args, rv):
         w.mem[('G', 'crc_val')] = rv
 
-    cfg = {'kslots': 2, 'call_hooks': {GEN_HDR: on_header}, 'write_hook': on_write, '_holder': holder,
+    cfg = {'kslots': int(os.environ.get('VERIF_KSLOTS', '2')), 'diff_templates': os.environ.get('VERIF_DT', '0') == '1', 'call_hooks': {GEN_HDR: on_header}, 'write_hook': on_write, '_holder': holder,
            'ret_hooks': {GEN_HDR: after_header, 'crc::CrcCalculator::calculate_crc32': after_crc}}
     if extra:
         for k, v in extra.items():
@@ -420,9 +509,7 @@ def analyse_writer(ck, key, tag='', extra=None, premise=None):
 
     def bind(I, w, args):
         body = ck.facts.body(key)
-        for i in range(1, body.arg_count + 1):
-            if body.local_names.get(i) == 'buffer':
-                cfg['_holder']['buf'] = args[i - 1][1].root
+        cfg['_holder']['buf'] = args[param_index(body, 'buffer') - 1][1].root
         if premise:
             premise(I, w, args, body)
     return ck.analyse(key, cfg, assume=bind, tag=tag)
@@ -501,7 +588,9 @@ def writer_env(ck, a, wname):
         md = a.arg('metadata')
         env['ptype'] = md[1][field_index(f, 'gse_encap::EncapMetadata', 'protocol_type')][1]
         env['frag_id'] = a.arg('frag_id')[1]
-        env['label_local'] = [i for i, n in a.body.local_names.items() if n == 'label'][0]
+        # label bytes are recognised by their provenance (the payload arrays of metadata.label), not by the name of a local
+        lab = md[1][field_index(f, 'gse_encap::EncapMetadata', 'label')]
+        env['label_contents'] = {fs[0][2] for _, fs in lab[1] if fs and fs[0][0] == 'arr'} if lab[0] == 'enum' else set()
     else:
         ctx = a.I.read(a.w0, a.arg('context')[1])
         env['frag_id'] = ctx[1][field_index(f, 'gse_encap::ContextFrag', 'frag_id')][1]
@@ -538,10 +627,12 @@ def describe_src(a, env, W, src, L):
             if n == 4 and ((cv is not None and cv[0] == 'int' and X == cv[1]) or ('crc' in env and eq(X, env['crc']))):
                 return ('crc',)
             return ('be?', X.pretty(), n)
-        if base is not None and base.root == ('L', env['root_fid'], env.get('label_local', -1)):
+        if content in env.get('label_contents', ()):
             return ('label',)
         if content[0] == 'elems' and not content[1]:
             return ('label',)        # the empty byte string returned by get_bytes for Broadcast / ReUse
+        if content[0] == 'elems' and len(content[1]) == 1 and content[1][0][0] == 'int' and eq(content[1][0][1], env['frag_id']):
+            return ('frag_id',)      # `[frag_id]` instead of `frag_id.to_be_bytes()`
         return ('arr?', str(content)[:80])
     if src[0] == 'seq':
         base, st, ln = src[1], src[2], src[3]
